@@ -274,6 +274,16 @@ func c08Direct(c *Ctx) {
 			f.grow(r, 10)
 		}
 	}
+	if r.Intn(4) == 0 {
+		// one or two organisms without any connection gene, as NewPopulationRandom builds them with a low link probability
+		for k := 0; k < 1+r.Intn(2); k++ {
+			s := snapGenome(genomes[r.Intn(len(genomes))])
+			s.Genes = nil
+			s.Id = f.newId()
+			genomes = append(genomes, buildFromSnap(s))
+		}
+		c.Count("batches.with_gene_less_genomes", 1)
+	}
 	// threshold at a quantile of the empirical distances
 	var ds []float64
 	for i := range genomes {
